@@ -5,6 +5,7 @@ CONSTANTS
   MaxData = 1
   MaxHist = 0
   RegWhileClaimed = "accept"
+  AltSpelling = "off"
 INVARIANTS C25_SingleClaim
 VIEW View
 CONSTRAINT Bound
